@@ -22,7 +22,9 @@ def swarm_knobs(rng, *, reorg=False, small_chunks=True, faults=True):
     k['txindex'] = rng.random() < 0.5
     k['max_hist_row'] = rng.choice([None, None, 2, 3, 7, 50])
     k['urls'] = rng.choice([1, 1, 1, 2, 3])        # daemon URLs (all front the same chain)
-    k['file_size'] = rng.choice([None, None, None, 173, 1000, 4099, 65536])    # physical files of the meta LogicalFiles
+    # physical files of the meta LogicalFiles: multiples of every record size (80, 32, 8), as the code's own 16 MB /
+    # 2 MB are - a record never straddles two files, a read of several records does
+    k['file_size'] = rng.choice([None, None, None, 160, 960, 4000, 65600])
     k['queue_p'] = rng.choice([0.0, 0.0, 0.0, 0.0, 0.03, 0.15])                   # jobs waiting in the executor's queue
     return k
 
